@@ -197,6 +197,9 @@ func init() {
 		},
 		"math/rand.Intn": func(fr *frame, args []value) value {
 			n := int(asInt64(args[0]))
+			if cur.RandExtremes && n > 2 {
+				return cur.choice("rand", 2) * (n - 1)
+			}
 			return cur.choice("rand", n)
 		},
 		"time.AfterFunc": func(fr *frame, args []value) value {
